@@ -1252,6 +1252,10 @@ func (c *Corpus) PermanodeModtime(pn blob.Ref) (t time.Time, ok bool) {
 	// itself. Even though the permanode blob sometimes has the
 	// GPG signature time, we intentionally ignore it.
 	for _, cl := range pm.Claims {
+		if cl.Type == string(schema.DeleteClaim) {
+			// (Un)deletions are not modifications (doc/schema/delete.md).
+			continue
+		}
 		if c.IsDeleted(cl.BlobRef) {
 			continue
 		}
